@@ -131,6 +131,15 @@ func (in *Interp) lookupMethod(typ types.Type, meth *types.Func) *ssa.Function {
 	return in.prog.ssa.LookupMethod(typ, meth.Pkg(), meth.Name())
 }
 
+// findMethod returns the exported method name of type t, or nil.
+func (in *Interp) findMethod(t types.Type, name string) *ssa.Function {
+	sel := in.prog.ssa.MethodSets.MethodSet(t).Lookup(nil, name)
+	if sel == nil {
+		return nil
+	}
+	return in.prog.ssa.MethodValue(sel)
+}
+
 func (in *Interp) step() {
 	p := in.path
 	if p == nil {
@@ -656,7 +665,10 @@ func (in *Interp) callSSA(caller *frame, callpos token.Pos, fn *ssa.Function, ar
 			in.externCache[fn] = ext
 		}
 		if ext != nil {
-			return ext(fr, args)
+			r := ext(fr, args)
+			if _, ft := r.(fallThrough); !ft {
+				return r
+			}
 		}
 		if fn.Blocks == nil {
 			unsupported("no code for function: %s", in.fnName(fn))
